@@ -401,6 +401,186 @@ theorem planOf_fixed (e : Enc) (o : Opts) (ho : o.omitEmpty = false) (tf : Nat) 
 theorem quirksOf_fixed (e : Enc) (o : Opts) : quirksOf e Dev.fixed o = qFixed := by
   cases e <;> simp [quirksOf, Dev.fixed, qFixed]
 
+/-! ### runs of the unchanged code that meet no trigger -/
+
+/-- without `omitempty` tags the leaking variable never changes: the oj tag pass is alt's -/
+theorem ojTagPass_noOmit (te ke nest : Bool) (sub : List (FieldHdr × GoType) → Bool → List Finfo)
+    (sub' : List (FieldHdr × GoType) → List Finfo) :
+    ∀ (fs : List (FieldHdr × GoType)),
+      (∀ ht ∈ fs, tagHasOmit ht.1.tag = false) →
+      (∀ ht ∈ fs, ht.1.embedded = true → sub (embFields ht.2) false = sub' (embFields ht.2)) →
+      ∀ (i : Nat), ojTagPass true te ke nest sub false fs i = (altTagPass te ke nest sub' fs i, false) := by
+  intro fs
+  induction fs with
+  | nil => intro _ _ i; simp [ojTagPass, altTagPass]
+  | cons hd rest ih =>
+    intro hno hemb i
+    obtain ⟨h, t⟩ := hd
+    have ih' := ih (fun x hx => hno x (List.mem_cons_of_mem _ hx)) (fun x hx => hemb x (List.mem_cons_of_mem _ hx)) (i + 1)
+    have hno0 : tagHasOmit h.tag = false := hno (h, t) List.mem_cons_self
+    simp only [ojTagPass, altTagPass, ih', ↓reduceIte]
+    by_cases hu : unexported h.name = true
+    · simp [hu]
+    · simp only [hu, Bool.false_eq_true, ↓reduceIte]
+      by_cases he : (h.embedded && !nest) = true
+      · have hemb0 : h.embedded = true := by
+          cases hh : h.embedded with
+          | true => rfl
+          | false => simp [hh] at he
+        simp [he, hemb (h, t) List.mem_cons_self hemb0]
+      · simp only [he, Bool.false_eq_true, ↓reduceIte]
+        by_cases ht : h.tag.isEmpty = true
+        · simp [ht]
+        · simp only [ht, Bool.false_eq_true, ↓reduceIte]
+          simp only [tagHasOmit, ht, Bool.false_eq_true, ↓reduceIte] at hno0
+          cases hp : parseTag h.tag with
+          | none => rfl
+          | some r =>
+            obtain ⟨p, tagOmit, asStr⟩ := r
+            simp only [hp] at hno0
+            simp [hno0]
+
+theorem ojTagFields_noOmit (te ke nest : Bool) :
+    ∀ (tf : Nat) (fs : List (FieldHdr × GoType)), noOmitTag tf fs = true →
+      ojTagFields true te ke nest tf fs false = altTagFields te ke nest tf fs := by
+  intro tf
+  induction tf with
+  | zero => intro fs _; rfl
+  | succ n ih =>
+    intro fs hno
+    simp only [noOmitTag, List.all_eq_true, Bool.and_eq_true, Bool.not_eq_true', Bool.or_eq_true] at hno
+    simp only [ojTagFields, altTagFields]
+    rw [ojTagPass_noOmit te ke nest _ (altTagFields te ke nest n) fs (fun ht hht => (hno ht hht).1)
+      (fun ht hht hemb => ih _ (by
+        rcases (hno ht hht).2 with h | h
+        · rw [hemb] at h; cases h
+        · exact h))]
+
+/-- with `KeyExact` the default key of the tag builder is the exact name whatever `tagExact` is -/
+theorem altTagPass_exact (nest : Bool) (sub sub' : List (FieldHdr × GoType) → List Finfo) (hs : ∀ fs, sub fs = sub' fs) :
+    ∀ (fs : List (FieldHdr × GoType)) (i : Nat), altTagPass true true nest sub fs i = altTagPass false true nest sub' fs i := by
+  intro fs
+  induction fs with
+  | nil => intro i; rfl
+  | cons hd rest ih =>
+    intro i
+    obtain ⟨h, t⟩ := hd
+    simp only [altTagPass, ih, hs, Bool.or_true]
+
+theorem altTagFields_exact (nest : Bool) : ∀ (tf : Nat) (fs : List (FieldHdr × GoType)),
+    altTagFields true true nest tf fs = altTagFields false true nest tf fs := by
+  intro tf
+  induction tf with
+  | zero => intro fs; rfl
+  | succ n ih => intro fs; simp only [altTagFields]; exact altTagPass_exact nest _ _ ih fs 0
+
+/-- the plan the unchanged code executes is the repaired plan when neither plan-level trigger is met -/
+theorem planOf_untriggered (e : Enc) (d : Dev) (o : Opts) (ho : o.omitEmpty = false) (tf : Nat)
+    (fs : List (FieldHdr × GoType))
+    (h1 : (!d.leak || !o.useTags || e == .alt || noOmitTag tf fs) = true)
+    (h2 : (!d.tagExact || !o.useTags || o.keyExact) = true) :
+    planOf e d o tf fs = planFixed o tf fs := by
+  cases hu : o.useTags with
+  | false => cases e <;> simp [planOf, ojFindex_cases, altFindex_cases, planFixed, hu, ho]
+  | true =>
+    simp only [hu, Bool.not_true, Bool.or_false] at h1 h2
+    -- step B: tagExact is invisible
+    have hB : altTagFields d.tagExact o.keyExact o.nestEmbed tf fs = altTagFields false o.keyExact o.nestEmbed tf fs := by
+      cases hte : d.tagExact with
+      | false => rfl
+      | true =>
+        simp only [hte, Bool.not_true, Bool.false_or] at h2
+        rw [h2]; exact altTagFields_exact _ _ _
+    cases e with
+    | alt => simp only [planOf, altFindex_cases, planFixed, hu, ↓reduceIte, hB]
+    | oj =>
+      simp only [planOf, ojFindex_cases, planFixed, hu, ↓reduceIte, ho]
+      cases hl : d.leak with
+      | false => rw [ojTagFields_fixed, hB]
+      | true =>
+        simp only [hl, Bool.not_true, Bool.false_or] at h1
+        have : noOmitTag tf fs = true := by simpa using h1
+        rw [ojTagFields_noOmit _ _ _ _ _ this, hB]
+    | sen =>
+      simp only [planOf, ojFindex_cases, planFixed, hu, ↓reduceIte, ho]
+      cases hl : d.leak with
+      | false => rw [ojTagFields_fixed, hB]
+      | true =>
+        simp only [hl, Bool.not_true, Bool.false_or] at h1
+        have : noOmitTag tf fs = true := by simpa using h1
+        rw [ojTagFields_noOmit _ _ _ _ _ this, hB]
+
+
+theorem map_congr_all {α β : Type} {f g : α → β} {p : α → Bool} :
+    ∀ {l : List α}, l.all p = true → (∀ x, p x = true → f x = g x) → l.map f = l.map g := by
+  intro l
+  induction l with
+  | nil => intro _ _; rfl
+  | cons a r ih =>
+    intro hall h
+    simp only [List.all_cons, Bool.and_eq_true] at hall
+    simp only [List.map_cons, h a hall.1, ih hall.2 h]
+
+/-- a run of the unchanged code that meets no trigger is the run of the repaired code -/
+theorem encVal_untriggered (e : Enc) (d : Dev) (o : Opts) (ho : o.omitEmpty = false) (tf : Nat) :
+    ∀ (vf : Nat) (vi ie : Bool) (t : GoType) (v : GoVal),
+      untriggered e d o tf (planFixed o tf) vf vi ie t v = true →
+      encVal (quirksOf e d o) o (planOf e d o tf) vf vi ie t v = encVal qFixed o (planFixed o tf) vf vi ie t v := by
+  intro vf
+  induction vf with
+  | zero => intro vi ie t v _; rfl
+  | succ n ih =>
+    intro vi ie t v hU
+    cases t <;> cases v <;>
+      simp only [untriggered, Bool.not_eq_true', Bool.and_eq_true, Bool.or_eq_true, List.all_eq_true] at hU <;>
+      simp only [encVal, qFixed_fields.1, qFixed_fields.2.1, qFixed_fields.2.2.1, Bool.false_and, Bool.and_false,
+        Bool.false_eq_true, ↓reduceIte]
+    case bytes.nilBytes => simp [hU]
+    case bytes.bytes => simp [hU]
+    case iface.iface => exact ih _ _ _ _ hU
+    case ptr.nilPtr => simp [hU]
+    case ptr.ptr => exact ih _ _ _ _ hU
+    case slice.slice e xs =>
+      congr 1
+      apply List.map_congr_left
+      intro x hx
+      exact ih _ _ _ _ (hU x hx)
+    case array.arr k e xs =>
+      congr 1
+      apply List.map_congr_left
+      intro x hx
+      exact ih _ _ _ _ (hU x hx)
+    case map.map e kvs =>
+      congr 1
+      apply List.map_congr_left
+      intro kv hkv
+      have := hU kv hkv
+      simp only [this.1, Bool.false_eq_true, ↓reduceIte, ih _ _ _ _ this.2]
+    case struct.struct name pkg fs vs =>
+      obtain ⟨⟨h1, h2⟩, h3⟩ := hU
+      have hp : planOf e d o tf fs = planFixed o tf fs :=
+        planOf_untriggered e d o ho tf fs
+          (by rcases h1 with ((h | h) | h) | h <;> simp [h])
+          (by rcases h2 with (h | h) | h <;> simp [h])
+      rw [hp]
+      congr 2
+      apply filterMap_congr'
+      intro fi hfi
+      have h3' := h3 fi hfi
+      simp only [fieldMember]
+      cases hl : fieldByIndex (.struct vs) fi.index with
+      | none =>
+        simp only [hl, Bool.not_eq_true'] at h3'
+        simp [h3', qFixed]
+      | some x =>
+        simp only [hl] at h3'
+        simp only
+        split
+        · rfl
+        · split
+          · rfl
+          · cases hty : fi.ty <;> simp only [hty, isIface] at h3' ⊢ <;> rw [ih _ _ _ _ h3']
+
 /-! ### comparing trees in witnesses (`JV` has no `DecidableEq`) -/
 
 mutual
